@@ -269,6 +269,14 @@ func run(seed int64, n int, dir string, _ []string) {
 				if out, rc := csvq(bin, d, nil, q); rc != 0 {
 					o.Law("not_recoverable_after_crash", map[string]interface{}{"crash_at": spec, "table": t.name, "rc": rc, "out": out})
 				}
+				// usable again means updatable again: no lock of the dead process may survive anywhere else
+				// (e.g. beside the target of a symbolic link) once the files beside the table are deleted
+				if len(t.old) > 0 {
+					u := fmt.Sprintf("SELECT COUNT(*) FROM `%s` FOR UPDATE", t.name)
+					if out, rc := csvq(bin, d, nil, "--wait-timeout", "1", u); rc != 0 {
+						o.Law("not_updatable_after_recovery", map[string]interface{}{"crash_at": spec, "table": t.name, "rc": rc, "out": out, "dir": listDir(d)})
+					}
+				}
 			}
 			o.NonTrivial(fmt.Sprintf("%s:%d:%d:%s:%v", pt, ntab, bystanders, strings.Join(states, ","), symlinked))
 			_ = os.RemoveAll(d)
